@@ -36,7 +36,7 @@ def Inv (s : St) : Prop := InvC (core s)
 theorem Inv.of_core {s s' : St} (h : core s' = core s) (hi : Inv s) : Inv s' := by
   unfold Inv; rw [h]; exact hi
 
-theorem inv_init (b : Bool) : Inv (init b) := by
+theorem inv_init (b : Bool) (c0 : Nat := 0) : Inv (init b c0) := by
   constructor <;> simp [core, init, activePc]
 
 /-! ### frame: functions that do not touch the core -/
@@ -124,15 +124,15 @@ theorem inv_releasePlaceholder (cfg : Cfg) (s : St) (h : Inv s) (ha : ¬ activeP
   inv_brute
 
 
-@[simp] theorem core_ctxExitCore (st : CtxSt) (s : St) (e : Exc) : core (ctxExitCore st s e).1 = core s := by
+@[simp] theorem core_ctxExitCore (st : CtxSt) (b : Nat) (s : St) (e : Exc) : core (ctxExitCore st b s e).1 = core s := by
   unfold ctxExitCore; split
   · simp only []; split <;> simp
   · rfl
 @[simp] theorem core_connExit (s : St) (e : Exc) : core (connExit s e).1 = core s := by
-  have := core_ctxExitCore s.connCtx s e
+  have := core_ctxExitCore s.connCtx s.connBase s e
   unfold connExit; simp only [core] at *; exact this
 @[simp] theorem core_sockExit (s : St) (e : Exc) : core (sockExit s e).1 = core s := by
-  have := core_ctxExitCore s.sockCtx s e
+  have := core_ctxExitCore s.sockCtx s.sockBase s e
   unfold sockExit; simp only [core] at *; exact this
 @[simp] theorem core_consume (cfg : Cfg) (s : St) : core (consume cfg s) = core s := by
   unfold consume; simp only []; split
